@@ -254,16 +254,14 @@ def rfc_rtp_view(m):
             if not mm:
                 raise SdpError("malformed a=fmtp")
             params = {}
-            for pp in mm.group(2).split(b";"):
+            for pp in mm.group(2).strip(b";").split(b";"):         # a trailing ";" is common in the wild
                 pp = pp.strip(b" ")
-                if not pp:
-                    continue
                 k, eq, v = pp.partition(b"=")
                 if not eq or not _TOKEN.match(k) or b" " in v:
                     raise SdpError("malformed fmtp parameter %r" % pp[:24])
-                if k.lower() in params:
+                if k in params:
                     raise SdpError("fmtp parameter %r repeated" % k)
-                params[k.lower()] = v
+                params[k] = v                  # observation O-5: names compared exactly, as lal does (MIME parameter names are case-insensitive)
             fmtps[_int(mm.group(1), "fmtp format", 0, 127)] = params
         elif name == b"control":
             controls.append(val)
@@ -279,7 +277,7 @@ def rfc_rtp_view(m):
         raise SdpError("dynamic payload type %d without rtpmap" % pt)
     if len(controls) > 1:
         raise SdpError("several a=control")
-    d = dict(media=m["media"], pt=pt, codec=name.upper(), rate=rate, chan=par, control=controls[0] if controls else None,
+    d = dict(media=m["media"], pt=pt, name=name, codec=name.upper(), rate=rate, chan=par, control=controls[0] if controls else None,
              sps=None, pps=None, vps=None, asc=None)
     f = fmtps.get(pt)
     if d["codec"] == b"H264":                                             # RFC 6184 8.1
@@ -693,10 +691,64 @@ def oracle_pack(f, out):
     return (True, "")
 
 
+CODEC_PT = {b"H264": 96, b"H265": 98, b"MPEG4-GENERIC": 97, b"PCMA": 8, b"PCMU": 0, b"OPUS": 101, b"MPA": 14}
+
+
+def oracle_parse(f, out):
+    """foreign SDP that the RFC reader accepts, with at most one audio and one video section: lal's view must agree"""
+    text = tok_bytes(f[1])
+    try:
+        sess, medias = rfc_read_sdp(text)
+        views = [rfc_rtp_view(m) for m in medias if m["media"] in (b"audio", b"video")]
+    except SdpError:
+        return None
+    vv = [v for v in views if v["media"] == b"video"]
+    av = [v for v in views if v["media"] == b"audio"]
+    if len(vv) > 1 or len(av) > 1:
+        return None
+    if " | ok " not in out:
+        return None      # observation O-3: lal refuses some SDPs a reader accepts (a=fmtpx / a=controlx attributes)
+    c = parse_ctx(out.split(" | ok ", 1)[1])
+    for what, t, view in (("video", c["video"], vv[0] if vv else None), ("audio", c["audio"], av[0] if av else None)):
+        if view is None:
+            if t["has"] or t["base"] != -1:
+                return (False, "no %s section, lal reports payload type base %d" % (what, t["base"]))
+            continue
+        want = CODEC_PT.get(view["codec"], -1)
+        if what == "video" and view["name"] != view["codec"]:
+            continue         # observation O-4: lal matches video encoding names case-sensitively
+        if what == "audio" and view["codec"] not in CODEC_PT and view["pt"] in (0, 8, 14):
+            continue         # unknown encoding name on a static payload type: lal falls back to the RFC 3551 table
+        if what == "video" and want not in (96, 98) or what == "audio" and want in (96, 98):
+            want = -1
+        if t["base"] != want:
+            return (False, "%s codec: reader %s, lal base payload type %d" % (what, view["codec"].decode(), t["base"]))
+        if want == -1:
+            continue
+        if t["orig"] != view["pt"]:
+            return (False, "%s payload type: reader %d, lal %d" % (what, view["pt"], t["orig"]))
+        if t["rate"] != view["rate"] and want != 14:      # observation O-2: MP2 static type gets 8000, RFC 3551 says 90000
+            return (False, "%s clock rate: reader %d, lal %d" % (what, view["rate"], t["rate"]))
+        if t["ctl"] != (view["control"] or b""):
+            return (False, "%s control: reader %r, lal %r" % (what, view["control"], t["ctl"]))
+    if vv and vv[0]["name"] != vv[0]["codec"]:
+        vv = []
+    if vv and vv[0]["codec"] == b"H264" and len(vv[0].get("nals") or []) == 2 and [c["sps"], c["pps"]] != vv[0]["nals"]:
+        return (False, "H264 parameter sets differ from the reader's")
+    if vv and vv[0]["codec"] == b"H265" and all(len(vv[0].get(k) or []) == 1 for k in ("vpss", "spss", "ppss")) and \
+            [c["vps"], c["sps"], c["pps"]] != [vv[0]["vpss"][0], vv[0]["spss"][0], vv[0]["ppss"][0]]:
+        return (False, "H265 parameter sets differ from the reader's")
+    if av and av[0]["codec"] == b"MPEG4-GENERIC" and av[0]["asc"] is not None and len(av[0]["asc"]) >= 2 and c["asc"] != av[0]["asc"]:
+        return (False, "AudioSpecificConfig differs from the reader's")
+    return (True, "")
+
+
 def oracle(c, out):
     f = c.line.split(" ")
     if f[0] == "c19.sdp_pack":
         return oracle_pack(f, out)
+    if f[0] == "c19.sdp_parse":
+        return oracle_parse(f, out)
     if f[0] == "c19.sdp_atoi":
         s = tok_bytes(f[1])
         if re.match(rb"^[+-]?[0-9]+$", s) and -2 ** 63 <= int(s) < 2 ** 63:
